@@ -1,6 +1,7 @@
 import Driver.Decl
 import Driver.Attrs
 import Driver.Yaml
+import Driver.NameLookup
 open Driver
 
 def dispatch (line : String) : String :=
@@ -18,6 +19,8 @@ def dispatch (line : String) : String :=
   | "yshape" :: args => handleYshape args
   | "parsestr" :: args => handleParseStr args
   | "rewrite" :: args => handleRewrite args
+  | "scope" :: args => handleScope args
+  | "sparse" :: args => handleSparse args
   | _ => "bad-op"
 
 partial def loop (h : IO.FS.Stream) (out : IO.FS.Stream) : IO Unit := do
